@@ -9,10 +9,13 @@ from ..core import Module, Undecided, AnalysisError, norm, short, attr_chain, na
 from ..report import Rule, RuleCtx
 from ..paths import enumerate_paths
 from ..flow import Flow
+from ..tables import Atom, Table
+from ..consteval import fold_expr, Regex
 from .. import rx
 from . import c14_taint as taint
 from . import c14_rxlang as rxl
-from .c14_fold import Folder, SampleConf, Recorder, Namespace, FoldRaise, replay, hook, Result
+from . import c14_shape as shape
+from .c14_linedep import LineDep
 
 U = 'mesonbuild/utils/universal.py'
 
@@ -20,22 +23,30 @@ EXPLANATION = (
     'Decides structural clauses of C14: R1 on every path of the meson-format pipeline (do_conf_file/do_conf_str/do_replacement and '
     'everything they call) no value read from a ConfigurationData object reaches the text argument of a placeholder scan '
     '(re.sub-family call, or a module function whose parameter reaches one) - path-sensitive must-not-flow with callee summaries; '
-    'R2 the meson placeholder regex has exactly the three alternatives [even backslash run before @ | @name@ not after a backslash | '
-    '\\@name\\@], each with the reference language (NFA equality), none can match blank or newline, and the callback halves runs, '
-    'un-escapes, substitutes, and records a missing name on the not-in-confdata branch only; R3 per value type (str/bool/int/other/'
-    'missing) the form emitted by @VAR@, ${VAR}, #mesondefine, #cmakedefine[01] and the generated header equals the documented form '
-    '(rows of the decision paths selected and folded under sample bindings); R4 in the per-line loops every line is appended exactly '
-    'once, unchanged or through exactly one transformer, input and output files are opened with newline="", and a per-line '
-    'transformer reproduces the indentation and the terminator of its input line; R5 the generated header iterates sorted(keys) and '
-    'emits once per key on every non-raising path. Does NOT decide the cmake scanner (index arithmetic over run-time strings), '
-    'nor output bytes for arbitrary templates.')
+    'R2 the meson placeholder regex (constant-folded) has exactly the three alternatives [even backslash run before @ | @name@ not '
+    'after a backslash | \\@name\\@], each with the reference language (NFA equality), none can match blank or newline, and the '
+    'decision table of the callback, by world enumeration over its atoms, returns [backslash * (len(match)//2) | the escaped group '
+    'without its two backslashes | the value / empty text], recording the name as missing on the not-in-confdata rows only; '
+    'R3 the decision tables of @VAR@, ${VAR}, #mesondefine, #cmakedefine[01] and of the generated header: for every world of the '
+    'atoms (isinstance worlds with bool below int, truth of the value, presence of the name, token count) the symbolic form of the '
+    'outcome (constant format string + operand roles NAME/VALUE + conversion chain) equals the documented form; R4 in the per-line '
+    'loops every line is appended exactly once, unchanged or through exactly one transformer, template files are opened with '
+    'newline="", the meson replacement returns the single scan of its parameter, and the text returned by a define transformer '
+    'depends (data/control flow) on the terminator and on the indentation of its input line; R5 the generated header iterates '
+    'sorted(keys) and emits once per key on every non-raising path. NOT decided: the cmake scanner (index arithmetic over run-time '
+    'strings); how many backslashes of a run the regex engine consumes for a concrete text (leftmost/greedy matching); whether a '
+    'result that depends on the terminator/indentation reproduces it exactly (only independence is refuted); indentation of '
+    '#cmakedefine lines (the code slices line[1:], which observes the indentation); the nasm description comment; output bytes for '
+    'arbitrary templates.')
 ASSUMPTIONS = [
     're.sub copies the text outside matches and inserts what the callback returns without scanning it again',
-    'a scan of a text without @, backslash (meson) / without @ and $ (cmake) returns the text unchanged (used to fold the define transformers)',
     'ConfigurationData.get raises KeyError for an unset name and returns (value, description) otherwise (build.py, checked in R3)',
     'text files opened with newline="" are read and written without newline translation (Python io)',
+    'str.split()/strip() without arguments ignore leading and trailing blanks and line terminators (used by the dependence analysis of R4c)',
 ]
-TECHNIQUE = 'path-sensitive taint with summaries + regex-language equality (NFA) + decision paths replayed under folded sample bindings'
+TECHNIQUE = ('path-sensitive taint with callee summaries; regex-language equality (NFA) on the constant-folded placeholder regex; decision tables '
+             'by path enumeration with reaching-definition substitution, world enumeration over canonical atoms, symbolic outcome forms '
+             '(format string + operand roles); dependence (non-interference) flow for line terminator / indentation')
 
 NAME_CLASS = '[-a-zA-Z0-9_]'
 PIPELINE_ROOTS = ['do_conf_file', 'do_conf_str', 'do_replacement']
@@ -108,28 +119,30 @@ def r1(ctx: RuleCtx) -> None:
 
 
 # ---------------------------------------------------------------------------------------------
-# shared: the meson regex, folded from get_variable_regex
+# shared: the placeholder regex, constant-folded out of get_variable_regex
 # ---------------------------------------------------------------------------------------------
-def _re_namespace() -> Namespace:
-    ns = Namespace({k: getattr(re, k) for k in ('VERBOSE', 'X', 'IGNORECASE', 'I', 'MULTILINE', 'M', 'DOTALL', 'S', 'ASCII', 'A')})
-    ns['compile'] = hook(lambda p, flags=0: re.compile(p, flags))
-    return ns
-
-
-def _variable_regex(mod: Module, fmt: str) -> 're.Pattern[str]':
+def _variable_regex(ctx: RuleCtx, mod: Module, fmt: str) -> Regex:
     fn = mod.func('get_variable_regex')
     params = [a.arg for a in fn.args.args]
     if len(params) != 1:
         raise Undecided('get_variable_regex: expected one parameter (the format)')
-    res = replay(fn.body, {params[0]: fmt, 're': _re_namespace()}, Folder())
-    if res.kind != 'return' or not isinstance(res.value, re.Pattern):
-        raise Undecided(f'get_variable_regex({fmt!r}) does not fold to a compiled pattern ({res.kind} {res.value!r})')
-    return res.value
+    tab = shape.table(fn, handlers=False, name='get_variable_regex')
+    want = Atom('cmp', ('eq', params[0], repr(fmt)))
+    rows = [r for r in tab.rows if r.conds.get(want) is True]
+    if len(rows) != 1 or rows[0].outcome[0] != 'return':
+        raise Undecided(f'get_variable_regex: {len(rows)} rows for the format {fmt!r}')
+    val = T.cast(shape.XRow, rows[0]).value
+    if val is None:
+        raise Undecided('get_variable_regex: nothing returned')
+    r = fold_expr(ctx.repo, mod, val)
+    if not isinstance(r, Regex):
+        raise Undecided(f'get_variable_regex({fmt!r}) does not fold to a compiled pattern: {r!r}')
+    return r
 
 
-def _alternatives(pat: 're.Pattern[str]') -> T.Tuple[T.Any, T.List[T.List[T.Any]]]:
-    tree = rx.parse(pat.pattern, pat.flags & ~re.UNICODE)
-    return tree, rx.branch_alternatives(pat.pattern, pat.flags & ~re.UNICODE)
+def _alternatives(pat: Regex) -> T.Tuple[T.Any, T.List[T.List[T.Any]]]:
+    flags = pat.flags & ~re.UNICODE
+    return rx.parse(pat.pattern, flags), rx.branch_alternatives(pat.pattern, flags)
 
 
 def _classify(tree: T.Any, alts: T.List[T.List[T.Any]]) -> T.Dict[str, T.Tuple[T.List[T.Any], T.List[T.Any], T.List[T.Any]]]:
@@ -149,28 +162,6 @@ def _assert_lang(item: T.Any) -> T.Tuple[str, int, T.List[T.Any]]:
     op, (direction, sub) = item
     return ('not' if op is rx.sre_c.ASSERT_NOT else 'yes', direction, list(sub))
 
-
-# ---------------------------------------------------------------------------------------------
-# R2  placeholder grammar
-# ---------------------------------------------------------------------------------------------
-def _closure_env(mod: Module, outer: str, conf: SampleConf, folder: Folder) -> T.Dict[str, T.Any]:
-    """Sample bindings for the free variables of a function nested in `outer`: the enclosing function's
-    ConfigurationData parameter, the sets it creates (`x = set()`), and mlog."""
-    ofn = mod.func(outer)
-    conf_names = [a.arg for a in ofn.args.args if a.annotation is not None and 'ConfigurationData' in norm(a.annotation)]
-    if len(conf_names) != 1:
-        raise Undecided(f'{outer}: expected exactly one ConfigurationData parameter')
-    env: T.Dict[str, T.Any] = {conf_names[0]: conf, 'mlog': Recorder('mlog', folder.effects), 're': _re_namespace()}
-    # straight-line bindings of the enclosing function (sets it creates, aliases, compiled patterns)
-    for st in ofn.body:
-        if isinstance(st, (ast.Assign, ast.AnnAssign)):
-            try:
-                folder.stmt(st, env)
-            except (Undecided, FoldRaise):
-                pass
-    return env
-
-
 def _single_def(fn: ast.FunctionDef, e: ast.AST) -> ast.AST:
     """Resolve a local name with exactly one definition in fn (not in nested defs) to its defining expression."""
     seen = 0
@@ -182,21 +173,6 @@ def _single_def(fn: ast.FunctionDef, e: ast.AST) -> ast.AST:
             break
         e = defs[0]
     return e
-
-
-def _call_nested(mod: Module, outer: str, inner: str, arg: T.Any, conf: SampleConf) -> T.Tuple[Result, Folder]:
-    fn = mod.func(f'{outer}.{inner}')
-    folder = Folder()
-    env = _closure_env(mod, outer, conf, folder)
-    ps = [a.arg for a in fn.args.args]
-    if len(ps) != 1:
-        raise Undecided(f'{outer}.{inner}: expected one parameter')
-    env[ps[0]] = arg
-    return replay(fn.body, env, folder), folder
-
-
-def _call_callback(mod: Module, outer: str, cb: str, m: 're.Match[str]', conf: SampleConf) -> T.Tuple[Result, Folder]:
-    return _call_nested(mod, outer, cb, m, conf)
 
 
 def _scan_call(mod: Module, qn: str) -> T.Tuple[ast.Call, str, ast.AST]:
@@ -216,9 +192,474 @@ def _scan_call(mod: Module, qn: str) -> T.Tuple[ast.Call, str, ast.AST]:
     return c, rest[0].id, rest[1]
 
 
+# ---------------------------------------------------------------------------------------------
+# decision tables with symbolic text outcomes (R2 callback, R3)
+# ---------------------------------------------------------------------------------------------
+def _parse(text: str) -> ast.AST:
+    try:
+        return ast.parse(text, mode='eval').body
+    except SyntaxError:
+        raise Undecided(f'atom text does not parse: {text}')
+
+
+def _as_value(e: ast.AST, confs: T.Set[str]) -> T.Optional[T.Tuple[str, int]]:
+    """`<conf>.get(K)[i]` -> (normalised K, i): element 0 is the value, 1 the description."""
+    if isinstance(e, ast.Subscript) and isinstance(e.slice, ast.Constant) and e.slice.value in (0, 1) and isinstance(e.value, ast.Call) \
+            and isinstance(e.value.func, ast.Attribute) and e.value.func.attr == 'get' and isinstance(e.value.func.value, ast.Name) \
+            and e.value.func.value.id in confs and len(e.value.args) == 1 and not e.value.keywords:
+        return norm(e.value.args[0]), e.slice.value
+    return None
+
+
+TYPES = ('str', 'bool', 'int', 'other')
+Extra = T.Callable[[Atom, bool], T.Any]
+
+
+def _sems(world: T.Dict[Atom, bool], confs: T.Set[str], extra: Extra) -> T.List[T.Dict[str, T.Any]]:
+    """Semantic views of one world of a table: value type (one view per type the atoms do not distinguish),
+    truthiness of the value, presence of the name, relations of a token count with a constant, pack-specific dimensions."""
+    sem: T.Dict[str, T.Any] = {}
+    inst: T.List[T.Tuple[T.Tuple[str, ...], bool]] = []
+    rel: T.Dict[T.Tuple[str, str], T.List[T.Tuple[str, bool, bool]]] = {}
+    for a, v in world.items():
+        if a.kind == 'isinstance':
+            val = _as_value(_parse(a.args[0]), confs)
+            if val is not None and val[1] == 0:
+                inst.append((tuple(a.args[1]), v))
+                sem['key'] = val[0]
+                continue
+        if a.kind == 'truth':
+            val = _as_value(_parse(a.args[0]), confs)
+            if val is not None:
+                sem['truthy' if val[1] == 0 else 'desc'] = v
+                if val[1] == 0:
+                    sem['key'] = val[0]
+                continue
+        if a.kind == 'is' and a.args[1] == 'None':
+            val = _as_value(_parse(a.args[0]), confs)
+            if val is not None and val[1] == 0:
+                sem['is_none'] = v
+                sem['key'] = val[0]
+                continue
+        if a.kind == 'in' and a.args[1] in confs:
+            sem['present'] = v
+            sem['key'] = a.args[0]
+            continue
+        if a.kind == 'cmp':
+            op, x, y = a.args
+            cx, cy = _parse(x), _parse(y)
+            if isinstance(cy, ast.Constant) and isinstance(cy.value, int) and not isinstance(cx, ast.Constant):
+                rel.setdefault((x, y), []).append((op, True, v))
+                continue
+            if isinstance(cx, ast.Constant) and isinstance(cx.value, int) and not isinstance(cy, ast.Constant):
+                rel.setdefault((y, x), []).append((op, False, v))
+                continue
+        r = extra(a, v)
+        if r is None:
+            raise Undecided(f'atom outside the vocabulary of the rendering tables: {a!r}')
+        if r != 'ignore':
+            sem[r[0]] = r[1]
+    views: T.List[T.Dict[str, T.Any]] = [sem]
+    for (expr, const), obs in rel.items():
+        cands = []
+        for r_ in ('lt', 'eq', 'gt'):
+            ok = True
+            for op, expr_first, v in obs:
+                if op == 'eq':
+                    holds = r_ == 'eq'
+                else:  # lt(first, second)
+                    holds = (r_ == 'lt') if expr_first else (r_ == 'gt')
+                ok = ok and holds == v
+            if ok:
+                cands.append(r_)
+        views = [dict(s_, **{f'rel:{expr}:{const}': c}) for s_ in views for c in cands]
+    cands_t = [t for t in TYPES if all(v == any(t == x or (t == 'bool' and x == 'int') for x in types) for types, v in inst)]
+    views = [dict(s_, type=t) for s_ in views for t in cands_t]
+    # dimensions the code does not test are free: every value must satisfy the reference
+    out: T.List[T.Dict[str, T.Any]] = []
+    for s_ in views:
+        if s_.get('is_none'):
+            continue            # a configuration value is str, int or bool (build.ConfigurationData), never None
+        for tr in ((s_['truthy'],) if 'truthy' in s_ else (True, False)):
+            out.append(dict(s_, truthy=tr))
+    return out
+
+
+def _rel(sem: T.Dict[str, T.Any], pred: T.Callable[[str], bool], const: str) -> T.Optional[str]:
+    hits = [v for k, v in sem.items() if k.startswith('rel:') and k.endswith(':' + const) and pred(k[4:-len(const) - 1])]
+    return hits[0] if len(hits) == 1 else None
+
+
+class Spec(T.NamedTuple):
+    qn: str
+    confs: T.Set[str]
+    ref: T.Callable[[T.Dict[str, T.Any]], T.Optional[T.Dict[str, T.Any]]]
+    extra: Extra = lambda a, v: None
+    role: T.Callable[[shape.Op], T.Optional[str]] = lambda op: None
+    by_handler: bool = False
+    line: T.Optional[str] = None
+    scans: T.Mapping[str, int] = {}
+
+
+def _role(spec: Spec, sem: T.Dict[str, T.Any]) -> T.Callable[[shape.Op], str]:
+    def role(op: shape.Op) -> str:
+        val = _as_value(op.node, spec.confs)
+        if val is not None:
+            return 'VALUE' if val[1] == 0 else 'DESC'
+        if sem.get('key') is not None and op.expr == sem['key']:
+            return 'NAME'
+        r = spec.role(op)
+        if r is not None:
+            return r
+        if spec.line is not None and spec.line in names_in(op.node) and names_in(op.node) <= {spec.line, 'len'}:
+            return 'LINE'
+        return '?' + op.expr
+    return role
+
+
+def _choose(spec: Spec, sem: T.Dict[str, T.Any]) -> T.Callable[[ast.AST], T.Optional[bool]]:
+    def choose(test: ast.AST) -> T.Optional[bool]:
+        neg = False
+        while isinstance(test, ast.UnaryOp) and isinstance(test.op, ast.Not):
+            neg, test = not neg, test.operand
+        val = _as_value(test, spec.confs)
+        if val is not None and val[1] == 0 and 'truthy' in sem:
+            return sem['truthy'] != neg
+        return None
+    return choose
+
+
+_AFFIX = re.compile(r'^(?:\s|\{LINE\})+|(?:\s|\{LINE\})+$')
+
+
+def _text(spec: Spec, sem: T.Dict[str, T.Any], e: ast.AST, keep_ends: bool = False) -> str:
+    t = shape.render(shape.parts(e, spec.scans), _role(spec, sem), _choose(spec, sem))
+    if sem.get('type') == 'int':
+        t = t.replace('{VALUE|int}', '{VALUE}')      # int() of an int / %d of an int
+    if not keep_ends:
+        t = _AFFIX.sub('', t)                          # indentation / terminator are R4c's business
+    return t
+
+
+def _outcome(spec: Spec, sem: T.Dict[str, T.Any], r: shape.XRow, keep_ends: bool = False) -> T.Dict[str, T.Any]:
+    got: T.Dict[str, T.Any] = {'kind': r.outcome[0]}
+    if r.outcome[0] == 'raise':
+        got['exc'] = r.outcome[1]
+    elif r.outcome[0] == 'return' and r.value is not None:
+        got['text'] = _text(spec, sem, r.value, keep_ends)
+    got['adds'] = [_text(spec, sem, c.args[0]) for c in r.calls if isinstance(c.func, ast.Attribute) and c.func.attr == 'add' and len(c.args) == 1]
+    got['deprecation'] = len([c for c in r.calls if norm(c.func) == 'mlog.deprecation'])
+    got['writes'] = [_text(spec, sem, c.args[0], True) for c in r.calls if isinstance(c.func, ast.Attribute) and c.func.attr == 'write' and len(c.args) == 1]
+    return got
+
+
+def _agree(got: T.Dict[str, T.Any], want: T.Dict[str, T.Any]) -> bool:
+    for k, w in want.items():
+        g = got.get(k)
+        if k == 'text':
+            if g not in (w if isinstance(w, (set, frozenset, list, tuple)) else {w}):
+                return False
+        elif g != w:
+            return False
+    return True
+
+
+def _fmt(d: T.Dict[str, T.Any]) -> str:
+    items = []
+    for k in ('kind', 'exc', 'text', 'adds', 'deprecation', 'writes'):
+        if k in d and d[k] not in ([], 0, None):
+            v = d[k]
+            items.append(f'{k}={sorted(v) if isinstance(v, (set, frozenset)) else v!r}')
+    return ', '.join(items)
+
+
+def _sem_txt(sem: T.Dict[str, T.Any]) -> str:
+    return ', '.join(f'{k.split(":")[0] if k.startswith("rel:") else k}={v}' for k, v in sorted(sem.items()) if k != 'key')
+
+
+def _guard_ok(fn: ast.AST, confs: T.Set[str]) -> None:
+    """Presence by exception: the handler must catch KeyError and the try body must hold the `<conf>.get(..)`."""
+    for t in ast.walk(fn):
+        if isinstance(t, ast.Try) and t.handlers:
+            has_get = any(isinstance(c, ast.Call) and isinstance(c.func, ast.Attribute) and c.func.attr == 'get' and
+                          isinstance(c.func.value, ast.Name) and c.func.value.id in confs for s in t.body for c in ast.walk(s))
+            if not has_get:
+                continue
+            for h in t.handlers:
+                names = {norm(x).split('.')[-1] for x in (h.type.elts if isinstance(h.type, ast.Tuple) else [h.type])} if h.type is not None else {'<bare>'}
+                if not names & {'KeyError', 'LookupError', 'Exception', '<bare>'}:
+                    raise Undecided(f'handler for {sorted(names)} around the configuration lookup: presence test not understood')
+
+
+def _check_table(ctx: RuleCtx, mod: Module, spec: Spec, tab: Table, what: str, only: T.Optional[T.Callable[[T.Dict[str, T.Any]], bool]] = None,
+                 outcome: T.Optional[T.Callable[[Spec, T.Dict[str, T.Any], shape.XRow], T.Dict[str, T.Any]]] = None) -> int:
+    n = 0
+    bad: T.Dict[str, T.Tuple[T.Any, ...]] = {}
+    for w in tab.worlds():
+        fired = T.cast(T.List[shape.XRow], tab.fire(w))
+        for sem0 in _sems(w, spec.confs, spec.extra):
+            for pres in ((True, False) if spec.by_handler else (None,)):
+                sem = dict(sem0) if pres is None else dict(sem0, present=pres)
+                if only is not None and not only(sem):
+                    continue
+                want = spec.ref(sem)
+                if want is None:
+                    continue
+                rows = fired
+                if spec.by_handler:
+                    early = [r for r in fired if not r.handlers and not r.in_try]
+                    rows = early or [r for r in fired if bool(r.handlers) == (not pres)]
+                if len(rows) != 1:
+                    raise Undecided(f'{spec.qn}: {len(rows)} rows fire for [{_sem_txt(sem)}]')
+                r = rows[0]
+                got = (outcome or _outcome)(spec, sem, r)
+                n += 1
+                if not _agree(got, want):
+                    k = f'{what}: {_sem_txt(sem)}'
+                    bad.setdefault(k, (r, got, want))
+    for k, (r, got, want) in bad.items():
+        node = r.path.events[-1].node if r.path.events else None
+        ctx.violation(mod, spec.qn, f'rendering: {k}', f'{k}: the code gives [{_fmt(got)}] (row `{r!r}`); documented: [{_fmt(want)}]'[:900], node or mod.func(spec.qn))
+    if not bad:
+        ctx.ok(f'{spec.qn}: {what}: {len(tab.rows)} rows agree with the documented forms on {n} (world, value-type) combinations')
+    return n
+
+
+def _confs(mod: Module, qn: str) -> T.Set[str]:
+    c = taint.Analysis(mod).conf_params(qn)
+    if not c:
+        raise Undecided(f'{qn}: no ConfigurationData parameter in scope')
+    return c
+
+
+RAISE = {'kind': 'raise', 'exc': 'MesonException'}
+
+
+def _ret(*texts: str, **kw: T.Any) -> T.Dict[str, T.Any]:
+    return dict({'kind': 'return', 'text': set(texts)}, **kw)
+
+
+# -- the callback of the meson scan -------------------------------------------------------------------
+def _callback_table(mod: Module) -> T.Tuple[str, ast.FunctionDef, Table, str]:
+    _, cbname, _ = _scan_call(mod, 'do_replacement_meson')
+    qn = f'do_replacement_meson.{cbname}'
+    if not mod.has_func(qn):
+        raise Undecided(f'do_replacement_meson: replacement `{cbname}` is not a nested function')
+    fn = mod.func(qn)
+    if len(fn.args.args) != 1:
+        raise Undecided(f'{qn}: expected one parameter (the match)')
+    outer = mod.func('do_replacement_meson')
+    base = shape.PathEnv()
+    for st in outer.body:
+        if isinstance(st, (ast.Assign, ast.AnnAssign)) and not isinstance(getattr(st, 'value', None), ast.Call):
+            base.stmt(st)       # aliases such as `cfg = confdata`
+    return qn, fn, shape.table(fn, handlers=False, name=qn, base=base.env), fn.args.args[0].arg
+
+
+def _group_ref(e: ast.AST, m: str) -> T.Optional[T.Any]:
+    """`m.group(G)` / `m[G]` / `m.groupdict().get(G)` / `m.groupdict()[G]` -> G (0 for the whole match)."""
+    if isinstance(e, ast.Call) and isinstance(e.func, ast.Attribute) and isinstance(e.func.value, ast.Name) and e.func.value.id == m and e.func.attr == 'group':
+        if not e.args:
+            return 0
+        if len(e.args) == 1 and isinstance(e.args[0], ast.Constant):
+            return e.args[0].value
+    if isinstance(e, ast.Subscript) and isinstance(e.value, ast.Name) and e.value.id == m and isinstance(e.slice, ast.Constant):
+        return e.slice.value
+    gd = None
+    if isinstance(e, ast.Call) and isinstance(e.func, ast.Attribute) and e.func.attr == 'get' and len(e.args) == 1 and isinstance(e.args[0], ast.Constant):
+        gd, g = e.func.value, e.args[0].value
+    elif isinstance(e, ast.Subscript) and isinstance(e.slice, ast.Constant):
+        gd, g = e.value, e.slice.value
+    if gd is not None and isinstance(gd, ast.Call) and isinstance(gd.func, ast.Attribute) and gd.func.attr == 'groupdict' and \
+            isinstance(gd.func.value, ast.Name) and gd.func.value.id == m and not gd.args:
+        return g
+    return None
+
+
+def _callback_extra(m: str) -> Extra:
+    def extra(a: Atom, v: bool) -> T.Any:
+        if a.kind == 'truth':
+            e = _parse(a.args[0])
+            if isinstance(e, ast.Call) and isinstance(e.func, ast.Attribute) and e.func.attr == 'endswith' and len(e.args) == 1 and \
+                    isinstance(e.args[0], ast.Constant) and e.args[0].value == '\\' and _group_ref(e.func.value, m) == 0:
+                return ('ends_backslash', v)
+        if a.kind == 'is' and a.args[1] == 'None':
+            g = _group_ref(_parse(a.args[0]), m)
+            if isinstance(g, str):
+                return (f'group:{g}', not v)
+        return None
+    return extra
+
+
+def _alt_of(sem: T.Dict[str, T.Any]) -> T.Optional[str]:
+    """Which alternative matched, by regex-language facts: every word of the run alternative ends with a backslash and no word
+    of the other two does (checked in R2); the named groups belong to different alternatives."""
+    run = sem.get('ends_backslash')
+    esc = sem.get('group:escaped')
+    if run is None or esc is None:
+        raise Undecided('callback does not discriminate by `group(0).endswith(backslash)` and the `escaped` group')
+    if run and esc:
+        return None          # impossible: the escaped alternative ends with @
+    return 'run' if run else ('escaped' if esc else 'variable')
+
+
+# ---------------------------------------------------------------------------------------------
+# R2  placeholder grammar
+# ---------------------------------------------------------------------------------------------
+def _half_run(e: ast.AST, m: str) -> T.Optional[bool]:
+    """Is `e` "half as many backslashes as the match is long"?  True / False (recognisably something else) / None (unknown shape)."""
+    def is_len(x: ast.AST) -> bool:
+        if isinstance(x, ast.Call) and isinstance(x.func, ast.Name) and x.func.id == 'len' and len(x.args) == 1 and _group_ref(x.args[0], m) == 0:
+            return True
+        if isinstance(x, ast.BinOp) and isinstance(x.op, ast.Sub):
+            def pos(c: ast.AST, which: str) -> bool:
+                return isinstance(c, ast.Call) and isinstance(c.func, ast.Attribute) and c.func.attr == which and isinstance(c.func.value, ast.Name) \
+                    and c.func.value.id == m and (not c.args or (len(c.args) == 1 and isinstance(c.args[0], ast.Constant) and c.args[0].value == 0))
+            return pos(x.left, 'end') and pos(x.right, 'start')
+        return False
+
+    def is_half(x: ast.AST) -> bool:
+        return isinstance(x, ast.BinOp) and isinstance(x.op, ast.FloorDiv) and is_len(x.left) and isinstance(x.right, ast.Constant) and x.right.value == 2
+
+    if isinstance(e, ast.BinOp) and isinstance(e.op, ast.Mult):
+        for a, b in ((e.left, e.right), (e.right, e.left)):
+            if isinstance(a, ast.Constant) and a.value == '\\':
+                return is_half(b)
+        return None
+    if isinstance(e, ast.Subscript) and isinstance(e.slice, ast.Slice) and _group_ref(e.value, m) == 0 and e.slice.step is None:
+        s = e.slice
+        if s.lower is None and s.upper is not None:
+            return is_half(s.upper)
+        return False
+    return None
+
+
+def _unescape_text(e: ast.AST, m: str, group: str, prefix: str, suffix: str) -> T.Optional[str]:
+    """Template of the text built from the escaped group, whose every word is prefix + NAME + suffix (regex fact):
+    constant slices of the group are resolved against the constant prefix / suffix."""
+    out = ''
+    for p in shape.flatten(shape.parts(e)):
+        if isinstance(p, shape.Lit):
+            out += p.text
+            continue
+        if not isinstance(p, shape.Op) or p.conv:
+            return None
+        n = p.node
+        if _group_ref(n, m) == group:
+            out += prefix + '{NAME}' + suffix
+            continue
+        if isinstance(n, ast.Subscript) and isinstance(n.slice, ast.Slice) and n.slice.step is None and _group_ref(n.value, m) == group:
+            lo, hi = n.slice.lower, n.slice.upper
+
+            def const(x: T.Optional[ast.AST]) -> T.Optional[int]:
+                if x is None:
+                    return None
+                if isinstance(x, ast.Constant) and isinstance(x.value, int):
+                    return x.value
+                if isinstance(x, ast.UnaryOp) and isinstance(x.op, ast.USub) and isinstance(x.operand, ast.Constant) and isinstance(x.operand.value, int):
+                    return -x.operand.value
+                raise Undecided(f'computed slice bound in {short(n)}')
+            a, b = const(lo), const(hi)
+            a = 0 if a is None else a
+            b = 0 if b is None else b
+            if not (0 <= a <= len(prefix) and -len(suffix) <= b <= 0):
+                return None
+            out += prefix[a:] + '{NAME}' + suffix[:len(suffix) + b]
+            continue
+        if isinstance(n, ast.Subscript) and isinstance(n.slice, (ast.Constant, ast.UnaryOp)) and _group_ref(n.value, m) == group:
+            i = n.slice.value if isinstance(n.slice, ast.Constant) else -n.slice.operand.value  # type: ignore[attr-defined]
+            if isinstance(i, int) and 0 <= i < len(prefix):
+                out += prefix[i]
+                continue
+            if isinstance(i, int) and -len(suffix) <= i < 0:
+                out += suffix[i]
+                continue
+        return None
+    return out
+
+
+def _fixed_ends(items: T.List[T.Any]) -> T.Tuple[str, str]:
+    """Constant prefix and suffix (literal characters) of every word of a regex item list."""
+    lits = [chr(av) if op is rx.sre_c.LITERAL else None for op, av in items]
+    pre = ''
+    for c in lits:
+        if c is None:
+            break
+        pre += c
+    suf = ''
+    for c in reversed(lits):
+        if c is None:
+            break
+        suf = c + suf
+    if len(pre) == len(lits):
+        suf = ''
+    return pre, suf
+
+
+def _r2_callback(ctx: RuleCtx, mod: Module, kinds: T.Dict[str, T.Any], gd: T.Dict[str, int]) -> None:
+    qn, fn, tab, m = _callback_table(mod)
+    confs = _confs(mod, qn)
+    # the discriminators the callback uses are exact, by the languages of the alternatives
+    for kind, (lead, body, trail) in kinds.items():
+        ends = rxl.can_end_with(body, '\\')
+        only = rxl.difference(body, r'(?:\\\\)+') is None if kind == 'run' else None
+        if kind == 'run':
+            ctx.require(bool(only), 'run alternative: every match ends with a backslash', mod, 'get_variable_regex', 'meson placeholder regex: run: last character',
+                        'matches of the backslash-run alternative must consist of backslashes (the callback recognises them by their last character)', mod.func('get_variable_regex'))
+        else:
+            ctx.require(not ends, f'{kind} alternative: no match ends with a backslash', mod, 'get_variable_regex', f'meson placeholder regex: {kind}: last character',
+                        f'a match of the {kind} alternative can end with a backslash: the callback would treat it as a backslash run', mod.func('get_variable_regex'))
+    esc_items = rxl.find_group(kinds['escaped'][1], gd['escaped']) if 'escaped' in kinds else None
+    if esc_items is None:
+        raise Undecided('no `escaped` group: the un-escape row cannot be checked')
+    pre, suf = _fixed_ends(list(esc_items))
+
+    def outcome(spec: Spec, sem: T.Dict[str, T.Any], r: shape.XRow) -> T.Dict[str, T.Any]:
+        alt = _alt_of(sem)
+        got = _outcome(spec, sem, r)
+        if r.outcome[0] == 'return' and r.value is not None:
+            if alt == 'run':
+                h = _half_run(r.value, m)
+                if h is None:
+                    raise Undecided(f'{qn}: run row returns `{short(r.value)}`: shape not understood')
+                got['text'] = 'backslash * (len(match) // 2)' if h else norm(r.value)
+            elif alt == 'escaped':
+                t = _unescape_text(r.value, m, 'escaped', pre, suf)
+                if t is None:
+                    raise Undecided(f'{qn}: escaped row returns `{short(r.value)}`: shape not understood')
+                got['text'] = t
+        return got
+
+    def ref(sem: T.Dict[str, T.Any]) -> T.Optional[T.Dict[str, T.Any]]:
+        alt = _alt_of(sem)
+        if alt is None:
+            return None
+        if alt == 'run':
+            return _ret('backslash * (len(match) // 2)', adds=[], deprecation=0)
+        if alt == 'escaped':
+            return _ret('@{NAME}@', adds=[], deprecation=0)
+        if 'present' not in sem:
+            raise Undecided(f'{qn}: the variable rows do not test membership of the name in the configuration data')
+        if not sem['present']:
+            return _ret('', adds=['{NAME}'])
+        return {'adds': []}            # forms per value type: R3
+
+    spec = Spec(qn, confs, ref, _callback_extra(m))
+    n = _check_table(ctx, mod, spec, tab, 'callback of the meson scan', outcome=outcome)
+    ctx.floor('callback: (world, type) combinations compared', n, 8)
+    # the name looked up is the `variable` group
+    names: T.Set[T.Any] = set()
+    for a in tab.atoms():
+        if a.kind == 'in' and a.args[1] in confs:
+            names.add(_group_ref(_parse(a.args[0]), m))
+    ctx.require(names == {'variable'}, 'callback looks up the text of the group `variable`', mod, qn, 'name looked up by the callback',
+                f'the name tested against the configuration data is taken from {sorted(map(str, names))}, not from the group `variable`', fn)
+
+
+
 def r2(ctx: RuleCtx) -> None:
     mod = ctx.repo.module(U)
-    pat = _variable_regex(mod, 'meson')
+    pat = _variable_regex(ctx, mod, 'meson')
     tree, alts = _alternatives(pat)
     gfn = mod.func('get_variable_regex')
     ctx.floor('alternatives of the meson placeholder regex', len(alts), 3)
@@ -280,31 +721,8 @@ def r2(ctx: RuleCtx) -> None:
                 'the scan must replace every match (no count limit, no extra flags)', call)
     if not mod.has_func(f'do_replacement_meson.{cbname}'):
         raise Undecided(f'do_replacement_meson: replacement `{cbname}` is not a nested function')
-
-    # callback semantics on one real match of every kind (Match objects produced by the folded pattern)
-    conf = SampleConf({'FOO': ('VAL', None)})
-
-    def sample(textv: str, want_match: str, want: str, want_missing: T.List[str], what: str) -> None:
-        m = pat.search(textv)
-        if m is None or m.group(0) != want_match:
-            ctx.violation(mod, 'get_variable_regex', f'meson placeholder regex on {textv!r}',
-                          f'first match in {textv!r} is {m.group(0) if m else None!r}; the grammar requires {want_match!r}', gfn)
-            return
-        res, folder = _call_callback(mod, 'do_replacement_meson', cbname, m, conf)
-        adds = [list(a) for n, a in folder.effects if n.endswith('.add')]
-        got = (res.kind, res.value, [x for a in adds for x in a])
-        ctx.require(got == ('return', want, want_missing), f'callback on {want_match!r} ({what}) -> {want!r}, missing {want_missing}', mod,
-                    f'do_replacement_meson.{cbname}', f'callback: {what}',
-                    f'for the match {want_match!r} ({what}) the callback yields {got[0]} {got[1]!r} and records {got[2]} as missing; expected {want!r} and {want_missing}',
-                    res.path.events[-1].node if res.path and res.path.events else fn)
-
-    bs = '\\'
-    for n in (2, 3, 4, 5, 6):
-        keep = n - n % 2
-        sample(bs * n + '@FOO@', bs * keep, bs * (keep // 2), [], f'run of {n} backslashes before @: {keep} consumed, halved')
-    sample(bs + '@a-b_9' + bs + '@', bs + '@a-b_9' + bs + '@', '@a-b_9@', [], 'escaped placeholder is un-escaped, not substituted')
-    sample('x @FOO@ y', '@FOO@', 'VAL', [], 'set name is substituted, nothing recorded')
-    sample('x @NO-pe_1@ y', '@NO-pe_1@', '', ['NO-pe_1'], 'unset name yields the empty string and is recorded')
+    # decision table of the callback
+    _r2_callback(ctx, mod, kinds, gd)
     # the set the callback fills is the one returned
     rets = [s for s in fn.body if isinstance(s, ast.Return)]
     ok = len(rets) == 1 and isinstance(rets[0].value, ast.Tuple) and len(rets[0].value.elts) == 2 and _single_def(fn, rets[0].value.elts[0]) is call
@@ -315,157 +733,304 @@ def r2(ctx: RuleCtx) -> None:
                 rets[0] if rets else fn, f'the function must return (re.sub(...), {sorted(recv)}); it returns {norm(rets[0].value) if rets else "nothing"}')
 
 
+
 # ---------------------------------------------------------------------------------------------
 # R3  rendering tables
 # ---------------------------------------------------------------------------------------------
-OTHER = ['not', 'a', 'scalar']      # a value that is neither str, bool nor int
-VALUES: T.List[T.Tuple[str, T.Any]] = [('str', 'VAL'), ('true', True), ('false', False), ('int', 7), ('zero', 0), ('other', OTHER), ('unset', None)]
-
-
-def _conf(kind: str, val: T.Any, name: str = 'FOO', desc: T.Optional[str] = None) -> SampleConf:
-    return SampleConf({} if kind == 'unset' else {name: (val, desc)})
-
-
-def _identity_scan(forbidden: str) -> T.Callable[..., T.Any]:
-    def f(*args: T.Any) -> T.Any:
-        texts = [a for a in args if isinstance(a, str)]
-        if len(texts) != 1:
-            raise Undecided('scan model: cannot identify the text argument')
-        if any(c in texts[0] for c in forbidden):
-            raise Undecided(f'scan model: sample text {texts[0]!r} contains placeholder characters')
-        return (texts[0], set())
-    return f
-
-
-HOOKS = {'do_replacement_meson': _identity_scan('@\\'), 'do_replacement_cmake': _identity_scan('@$')}
-
-
-def _define(mod: Module, qn: str, line: str, conf: SampleConf) -> Result:
-    fn = mod.func(qn)
-    env: T.Dict[str, T.Any] = {}
-    for a in fn.args.args:
-        ann = norm(a.annotation) if a.annotation is not None else ''
-        if 'ConfigurationData' in ann:
-            env[a.arg] = conf
-        elif 'Pattern' in ann:
-            env[a.arg] = None
-        elif ann == 'str':
-            env[a.arg] = line
-        elif ann == 'bool':
-            env[a.arg] = False
-        elif 'Optional' in ann:
-            env[a.arg] = None
-        else:
-            raise Undecided(f'{qn}: parameter {a.arg}: {ann} has no sample binding')
-    return replay(fn.body, env, Folder(HOOKS))
-
-
-def _header_env(mod: Module, hd: ast.FunctionDef, folder: Folder, data: SampleConf, fmt: str, macro: T.Optional[str]) -> T.Dict[str, T.Any]:
-    if [a.arg for a in hd.args.args] != ['ofile', 'cdata', 'output_format', 'macro_name']:
-        raise Undecided('_dump_c_header: parameter list changed')
-    env: T.Dict[str, T.Any] = {'ofile': Recorder('ofile', folder.effects), 'cdata': data, 'output_format': fmt, 'macro_name': macro}
-    for n in ast.walk(hd):
-        if isinstance(n, ast.Name) and n.id.isupper() and len(n.id) > 1 and n.id not in env and mod.has_assign(n.id):
-            v = mod.assign_value(n.id)
-            if not (isinstance(v, ast.Constant) and isinstance(v.value, str)):
-                raise Undecided(f'{n.id} is not a string literal')
-            env[n.id] = v.value
-    return env
-
-
-def _show(r: Result) -> str:
-    if r.kind == 'return':
-        return repr(r.value)
-    return f'{r.kind} {r.value}'
+def _scalar_ref(bool_forms: T.Set[str], qn: str, with_unset: bool = True) -> T.Callable[[T.Dict[str, T.Any]], T.Optional[T.Dict[str, T.Any]]]:
+    def ref(sem: T.Dict[str, T.Any]) -> T.Optional[T.Dict[str, T.Any]]:
+        if 'present' not in sem:
+            raise Undecided(f'{qn}: no membership test of the name in the configuration data')
+        if not sem['present']:
+            return _ret('', adds=['{NAME}']) if with_unset else None
+        t = sem['type']
+        if t == 'other':
+            return RAISE
+        if t == 'bool':
+            forms = set(bool_forms)
+            if '1/0' in forms:
+                forms.discard('1/0')
+                if 'truthy' in sem:
+                    forms.add('1' if sem['truthy'] else '0')
+            return _ret(*forms, adds=[])
+        return _ret('{VALUE}', adds=[])
+    return ref
 
 
 def r3(ctx: RuleCtx) -> None:
     mod = ctx.repo.module(U)
-    n = 0
+    total = 0
+    # @VAR@ (meson): str -> value, int -> str(value), bool -> str(value) + deprecation notice, other -> error
+    qn, fn, tab, m = _callback_table(mod)
+    base_ref = _scalar_ref({'{VALUE}'}, qn, with_unset=False)
 
-    def expect(qn: str, what: str, res: Result, want: T.Tuple[str, T.Any], node: T.Optional[ast.AST] = None, strip: bool = True) -> None:
-        nonlocal n
-        n += 1
-        got: T.Tuple[str, T.Any] = (res.kind, res.value.strip() if strip and isinstance(res.value, str) else res.value)
-        wtxt = repr(want[1]) if want[0] == 'return' else f'{want[0]} {want[1]}'
-        ctx.require(got == want, f'{qn}: {what} -> {wtxt}', mod, qn, f'rendering: {what}',
-                    f'{what}: the code yields {_show(res)}; documented form: {wtxt}',
-                    node or (res.path.events[-1].node if res.path and res.path.events else mod.func(qn)))
+    def ref_at(sem: T.Dict[str, T.Any]) -> T.Optional[T.Dict[str, T.Any]]:
+        if _alt_of(sem) != 'variable':
+            return None
+        w = base_ref(sem)
+        if w is not None and w.get('kind') == 'return':
+            w['deprecation'] = 1 if sem['type'] == 'bool' else 0
+        return w
+    total += _check_table(ctx, mod, Spec(qn, _confs(mod, qn), ref_at, _callback_extra(m)), tab, '@VAR@ per value type')
 
-    # @VAR@ (meson) -----------------------------------------------------------------------
-    pat = _variable_regex(mod, 'meson')
-    _, cbname, _ = _scan_call(mod, 'do_replacement_meson')
-    m = pat.search('@FOO@')
-    if m is None:
-        raise Undecided('meson regex does not match @FOO@')
-    ref_at = {'str': ('return', 'VAL'), 'true': ('return', 'True'), 'false': ('return', 'False'), 'int': ('return', '7'), 'zero': ('return', '0'),
-              'other': ('raise', 'MesonException'), 'unset': ('return', '')}
-    for kind, val in VALUES:
-        res, folder = _call_callback(mod, 'do_replacement_meson', cbname, m, _conf(kind, val))
-        expect(f'do_replacement_meson.{cbname}', f'@FOO@ with FOO {kind} ({val!r})', res, ref_at[kind], strip=False)
-        if kind in ('true', 'false'):
-            dep = [e for e in folder.effects if e[0] == 'mlog.deprecation']
-            ctx.require(len(dep) == 1, f'@FOO@ with a boolean: deprecation notice ({kind})', mod, f'do_replacement_meson.{cbname}', 'rendering: boolean deprecation',
-                        'substituting a boolean must emit the deprecation notice exactly once')
-    # ${VAR} / @VAR@ (cmake): variable_get ----------------------------------------------------
-    mod.func('do_replacement_cmake.variable_get')
-    ref_cm = dict(ref_at, true=('return', '1'), false=('return', '0'))
-    for kind, val in VALUES:
-        res, folder = _call_nested(mod, 'do_replacement_cmake', 'variable_get', 'FOO', _conf(kind, val))
-        expect('do_replacement_cmake.variable_get', f'${{FOO}} with FOO {kind} ({val!r})', res, ref_cm[kind], strip=False)
-        adds = [list(a) for nme, a in folder.effects if nme.endswith('.add')]
-        ctx.require(adds == ([['FOO']] if kind == 'unset' else []), f'variable_get: missing recorded iff unset ({kind})', mod, 'do_replacement_cmake.variable_get',
-                    'missing-name bookkeeping', f'for FOO {kind} the names recorded as missing are {adds}')
-    # #mesondefine -----------------------------------------------------------------------------
-    ref_md = {'str': ('return', '#define FOO VAL'), 'true': ('return', '#define FOO'), 'false': ('return', '#undef FOO'), 'int': ('return', '#define FOO 7'),
-              'zero': ('return', '#define FOO 0'), 'other': ('raise', 'MesonException'), 'unset': ('return', '/* #undef FOO */')}
-    for kind, val in VALUES:
-        expect('do_define_meson', f'#mesondefine FOO with FOO {kind} ({val!r})', _define(mod, 'do_define_meson', '#mesondefine FOO\n', _conf(kind, val)), ref_md[kind])
-    for bad in ('#mesondefine\n', '#mesondefine FOO BAR\n'):
-        expect('do_define_meson', f'malformed line {bad!r}', _define(mod, 'do_define_meson', bad, _conf('str', 'VAL')), ('raise', 'MesonException'))
-    # #cmakedefine / #cmakedefine01 --------------------------------------------------------------
-    truthy = {'str': True, 'true': True, 'false': False, 'int': True, 'zero': False, 'other': True, 'unset': False}
-    for kind, val in VALUES:
-        t = truthy[kind]
-        expect('do_define_cmake', f'#cmakedefine FOO with FOO {kind} ({val!r})', _define(mod, 'do_define_cmake', '#cmakedefine FOO\n', _conf(kind, val)),
-               ('return', '#define FOO' if t else '/* #undef FOO */'))
-        expect('do_define_cmake', f'#cmakedefine FOO xxx yyy with FOO {kind} ({val!r})', _define(mod, 'do_define_cmake', '#cmakedefine FOO xxx yyy\n', _conf(kind, val)),
-               ('return', '#define FOO xxx yyy' if t else '/* #undef FOO */'))
-        expect('do_define_cmake', f'#cmakedefine01 FOO with FOO {kind} ({val!r})', _define(mod, 'do_define_cmake', '#cmakedefine01 FOO\n', _conf(kind, val)),
-               ('return', '#define FOO 1' if t else '#define FOO 0'))
-    # generated header ----------------------------------------------------------------------------
-    hd = mod.func('_dump_c_header')
-    for fmt, pre, com in (('c', '#', lambda d: f'/* {d} */\n'), ('nasm', '%', lambda d: f'; {d}\n')):
-        for macro in (None, 'GUARD_H'):
-            for kind, val in VALUES:
-                if kind == 'unset':
-                    continue
-                for desc in (None, 'about FOO'):
-                    folder = Folder()
-                    env = _header_env(mod, hd, folder, SampleConf({'FOO': (val, desc)}), fmt, macro)
-                    res = replay(hd.body, env, folder, unroll=1)
-                    writes = [a[0] for nme, a in folder.effects if nme == 'ofile.write']
-                    body = ''.join(writes[1:])
-                    tail = '#endif\n' if fmt == 'c' and macro else ''
-                    c = com(desc) if desc else ''
-                    if kind == 'other':
-                        want_k, want_body = 'raise', None
-                    elif kind in ('true', 'false'):
-                        want_k, want_body = 'fall', c + f'{pre}{"define" if val else "undef"} FOO\n\n' + tail
-                    else:
-                        want_k, want_body = 'fall', c + f'{pre}define FOO {val}\n\n' + tail
-                    n += 1
-                    ok = res.kind == want_k and (want_body is None or body == want_body) and (res.kind != 'raise' or res.value == 'MesonException')
-                    ctx.require(ok, f'_dump_c_header[{fmt}, macro={macro}, desc={desc!r}]: FOO {kind} -> {want_body!r}', mod, '_dump_c_header',
-                                f'rendering: header entry for a {kind} value ({fmt})',
-                                f'format {fmt}, FOO={val!r}, description {desc!r}: the code {res.kind}s after writing {body!r}; documented: {want_k} {want_body!r}', hd)
-    ctx.floor('rendering samples evaluated', n, 90)
-    # ConfigurationData.get contract used by the samples
+    # ${VAR} / @VAR@ (cmake): bool -> 1 / 0
+    qn = 'do_replacement_cmake.variable_get'
+    fn = mod.func(qn)
+    tab = shape.table(fn, handlers=False, name=qn)
+    total += _check_table(ctx, mod, Spec(qn, _confs(mod, qn), _scalar_ref({'{VALUE|int}', '1/0'}, qn)), tab, '${VAR} per value type')
+
+    # #mesondefine
+    qn = 'do_define_meson'
+    fn = mod.func(qn)
+    confs = _confs(mod, qn)
+    _guard_ok(fn, confs)
+    line = [a.arg for a in fn.args.args if a.annotation is not None and norm(a.annotation) == 'str']
+    if len(line) != 1:
+        raise Undecided(f'{qn}: cannot identify the line parameter')
+    ln = line[0]
+    scans = {'do_replacement_meson': 1, 'do_replacement_cmake': 0}
+    for f_, i in scans.items():
+        a = mod.func(f_).args.args
+        if not (i < len(a) and a[i].annotation is not None and norm(a[i].annotation) == 'str'):
+            raise Undecided(f'{f_}: text parameter is not at position {i}')
+
+    def tokens(expr: str) -> bool:
+        e = _parse(expr)
+        return isinstance(e, ast.Call) and isinstance(e.func, ast.Name) and e.func.id == 'len' and len(e.args) == 1 and f'{ln}.split()' == norm(e.args[0])
+
+    def ref_md(sem: T.Dict[str, T.Any]) -> T.Optional[T.Dict[str, T.Any]]:
+        nt = _rel(sem, tokens, '2')
+        if nt is None:
+            raise Undecided('do_define_meson: no test of the token count against 2')
+        if nt != 'eq':
+            return RAISE
+        if not sem['present']:
+            return _ret('/* #undef {NAME} */')
+        t = sem['type']
+        if t == 'other':
+            return RAISE
+        if t == 'bool':
+            if 'truthy' not in sem:
+                raise Undecided('do_define_meson: boolean rows do not test the value')
+            return _ret('#define {NAME}' if sem['truthy'] else '#undef {NAME}')
+        return _ret('#define {NAME} {VALUE}')
+    tab = shape.table(fn, handlers=True, name=qn)
+    total += _check_table(ctx, mod, Spec(qn, confs, ref_md, by_handler=True, line=ln, scans=scans), tab, '#mesondefine per value type')
+
+    # #cmakedefine / #cmakedefine01
+    qn = 'do_define_cmake'
+    fn = mod.func(qn)
+    confs = _confs(mod, qn)
+    _guard_ok(fn, confs)
+    line = [a.arg for a in fn.args.args if a.annotation is not None and norm(a.annotation) == 'str']
+    if len(line) != 1:
+        raise Undecided(f'{qn}: cannot identify the line parameter')
+    ln = line[0]
+    nested = {q.split('.')[-1] for q in mod.funcs() if q.startswith(qn + '.')}
+
+    def extra_cm(a: Atom, v: bool) -> T.Any:
+        if a.kind == 'in' and a.args[1] == ln:
+            e = _parse(a.args[0])
+            if isinstance(e, ast.Constant) and e.value == 'cmakedefine01':
+                return ('bool01', v)
+        if a.kind == 'is' and a.args[1] == 'None' and isinstance(_parse(a.args[0]), ast.Name):
+            return 'ignore'         # `subproject is None`: only gates a FeatureNew notice
+        return None
+
+    def role_cm(op: shape.Op) -> T.Optional[str]:
+        n = op.node
+        if isinstance(n, ast.Call) and isinstance(n.func, ast.Name) and n.func.id in nested:
+            return 'RHS'
+        return None
+
+    def ref_cd(sem: T.Dict[str, T.Any]) -> T.Optional[T.Dict[str, T.Any]]:
+        if 'bool01' not in sem:
+            raise Undecided('do_define_cmake: no test for `cmakedefine01`')
+        if not sem['present']:
+            return _ret('#define {NAME} 0' if sem['bool01'] else '/* #undef {NAME} */')
+        if 'truthy' not in sem:
+            raise Undecided('do_define_cmake: the value is not tested for truth')
+        if not sem['bool01'] and not sem['truthy']:
+            return _ret('/* #undef {NAME} */')
+        return _ret('#define {NAME} {RHS}')
+    tab = shape.table(fn, handlers=True, name=qn)
+    total += _check_table(ctx, mod, Spec(qn, confs, ref_cd, extra_cm, role_cm, by_handler=True, line=ln, scans=scans), tab, '#cmakedefine[01] per value')
+    calls = [c for c in ast.walk(fn) if isinstance(c, ast.Call) and norm(c.func) == 'FeatureNew.single_use']
+    ctx.note(f'do_define_cmake: {len(calls)} FeatureNew notice(s) ignored')
+    # the right-hand side: 01 -> 1/0 by truth; otherwise the remaining tokens, each replaced by its value when set, joined by one blank
+    for q2 in sorted(q for q in mod.funcs() if q.startswith(qn + '.')):
+        total += _cmake_rhs(ctx, mod, q2, qn, ln)
+
+    # generated header
+    total += _header_forms(ctx, mod)
+    ctx.floor('rendering: (world, value-type) combinations compared', total, 60)
+    # ConfigurationData.get contract the tables rely on
     b = ctx.repo.module('mesonbuild/build.py')
     g = b.func('ConfigurationData.get')
     ok = len(g.body) == 1 and isinstance(g.body[0], ast.Return) and norm(g.body[0].value) == f'self.values[{g.args.args[1].arg}]'
-    ctx.require(ok, 'ConfigurationData.get(name) is self.values[name] (KeyError when unset)', b, 'ConfigurationData.get', g,
-                'the rendering samples assume get() indexes the dict (raising KeyError for an unset name)')
+    ctx.require(ok, 'ConfigurationData.get(name) is self.values[name]: (value, description), KeyError when unset', b, 'ConfigurationData.get', g,
+                'the rendering tables assume get() indexes the dict (raising KeyError for an unset name)')
+
+
+def _cmake_rhs(ctx: RuleCtx, mod: Module, qn: str, outer: str, ln: str) -> int:
+    fn = mod.func(qn)
+    confs = _confs(mod, qn)
+    ofn = mod.func(outer)
+    base = shape.PathEnv()
+    for st in ofn.body:
+        if isinstance(st, (ast.Assign, ast.AnnAssign)):
+            base.stmt(st)
+        elif isinstance(st, (ast.FunctionDef,)):
+            break
+    params = {a.arg for a in fn.args.args}
+    tab = shape.table(fn, handlers=True, unroll=1, name=qn, base={k: v for k, v in base.env.items() if k not in params})
+    n = 0
+    seen01 = False
+    loop_rows = 0
+    for r in T.cast(T.List[shape.XRow], tab.rows):
+        b01 = [v for a, v in r.conds.items() if a.kind == 'in' and isinstance(_parse(a.args[0]), ast.Constant) and _parse(a.args[0]).value == 'cmakedefine01']  # type: ignore[attr-defined]
+        if len(b01) != 1:
+            raise Undecided(f'{qn}: row without the cmakedefine01 test: {r!r}')
+        if r.outcome[0] != 'return' or r.value is None:
+            raise Undecided(f'{qn}: row does not return: {r!r}')
+        n += 1
+        if b01[0]:
+            seen01 = True
+            spec = Spec(qn, confs, lambda s: None)
+            forms = set()
+            for truthy in (True, False):
+                forms.add(_text(spec, {'truthy': truthy, 'type': 'other'}, r.value))
+            ok = forms == {'{VALUE|bool|int}'} or forms == {'1', '0'}
+            key_ok = all(isinstance(p, shape.Lit) or _as_value(p.node, confs) is not None for p in shape.flatten(shape.parts(r.value)) if isinstance(p, (shape.Lit, shape.Op)))
+            ctx.require(ok and key_ok, f'{qn}: #cmakedefine01 renders 1/0 by the truth of the value', mod, qn, 'rendering: cmakedefine01 right-hand side',
+                        f'for #cmakedefine01 the right-hand side is `{short(r.value)}` (forms {sorted(forms)}); documented: 1 when the value is true, 0 otherwise', r.path.events[-1].node)
+            continue
+        # ' '.join(tokens)
+        v = r.value
+        if not (isinstance(v, ast.Call) and isinstance(v.func, ast.Attribute) and v.func.attr == 'join' and len(v.args) == 1):
+            raise Undecided(f'{qn}: non-01 row returns `{short(v)}`, not a join')
+        ctx.require(isinstance(v.func.value, ast.Constant) and v.func.value.value == ' ', f'{qn}: tokens joined by one blank', mod, qn, v.func.value,
+                    f'the tokens of the right-hand side are joined by {norm(v.func.value)}', r.path.events[-1].node)
+        elems: T.List[ast.AST] = []
+
+        def flat(x: ast.AST) -> bool:
+            if isinstance(x, ast.BinOp) and isinstance(x.op, ast.Add):
+                return flat(x.left) and flat(x.right)
+            if isinstance(x, ast.List):
+                elems.extend(x.elts)
+                return True
+            if isinstance(x, ast.Call) and isinstance(x.func, ast.Name) and x.func.id == '__maybe__':
+                return True
+            return False
+        if not flat(v.args[0]):
+            raise Undecided(f'{qn}: token list `{short(v.args[0])}` is not built by += [..]')
+        iters = [e for e in r.path.events if e.kind == 'iter' and e.val == 'iter']
+        if len(elems) != len(iters):
+            raise Undecided(f'{qn}: {len(iters)} iteration(s) but {len(elems)} element(s) appended')
+        for el, it in zip(elems, iters):
+            loop_rows += 1
+            src = norm(it.node.iter)  # type: ignore[attr-defined]
+            tok = f'__element__({norm(shape.PathEnv(r.env).close(it.node.iter))})'  # type: ignore[attr-defined]
+            ps = [p for p in shape.flatten(shape.parts(el)) if not (isinstance(p, shape.Lit) and p.text == '')]
+            good = False
+            if len(ps) == 1 and isinstance(ps[0], shape.Op) and not ps[0].conv:
+                val = _as_value(ps[0].node, confs)
+                if r.handlers:
+                    good = norm(ps[0].node).startswith('__element__(')
+                else:
+                    good = val is not None and val[1] == 0 and val[0].startswith('__element__(')
+            ctx.require(good, f'{qn}: token of `{src}` -> ' + ('kept (unset)' if r.handlers else 'its value (set)'), mod, qn,
+                        'rendering: cmakedefine token ' + ('unset' if r.handlers else 'set'),
+                        f'a token of the right-hand side is rendered as `{short(el)}`; documented: the value when the token is a set name, else the token itself ({tok})',
+                        r.path.events[-1].node)
+    ctx.require(seen01, f'{qn}: a row for #cmakedefine01 exists', mod, qn, 'rendering: cmakedefine01 row', 'no row handles #cmakedefine01')
+    ctx.floor(f'{qn}: token rows', loop_rows, 2)
+    return n
+
+
+def _header_forms(ctx: RuleCtx, mod: Module) -> int:
+    qn = '_dump_c_header'
+    fn = mod.func(qn)
+    confs = _confs(mod, qn)
+    loops = [s for s in fn.body if isinstance(s, ast.For)]
+    if len(loops) != 1 or not isinstance(loops[0].target, ast.Name):
+        raise Undecided(f'{qn}: expected one top-level loop over the keys')
+    loop = loops[0]
+    k = loop.target.id
+    i = fn.body.index(loop)
+    # prefix table: '#' for c, '%' for nasm (Configuration.md / configure_file output_format)
+    pre = shape.table(fn, body=fn.body[:i], handlers=False, name=qn + ':prelude')
+    fmt_p = [a.arg for a in fn.args.args if 'Literal' in norm(a.annotation or ast.Constant(value=''))]
+    if len(fmt_p) != 1:
+        raise Undecided(f'{qn}: cannot identify the output format parameter')
+    n = 0
+    pref_names: T.Set[str] = set()
+    desc_fn: T.Dict[bool, ast.AST] = {}
+    for r in T.cast(T.List[shape.XRow], pre.rows):
+        isc = [v for a, v in r.conds.items() if a.kind == 'cmp' and a.args[0] == 'eq' and a.args[1] == fmt_p[0] and a.args[2] == "'c'"]
+        if len(isc) != 1:
+            raise Undecided(f'{qn}: prelude row without a test of the format against "c": {r!r}')
+        lits = {nm: v.value for nm, v in r.env.items() if isinstance(v, ast.Constant) and v.value in ('#', '%')}
+        n += 1
+        want = '#' if isc[0] else '%'
+        ctx.require(set(lits.values()) == {want}, f'{qn}: directive prefix for {"c" if isc[0] else "nasm"} is {want!r}', mod, qn, f'directive prefix ({"c" if isc[0] else "nasm"})',
+                    f'for the {"c" if isc[0] else "nasm"} format the directive prefix is {sorted(lits.values())}; documented: {want!r}', r.path.events[-1].node if r.path.events else fn)
+        pref_names |= set(lits)
+        for nm, v in r.env.items():
+            if isinstance(v, ast.Lambda):
+                desc_fn[isc[0]] = v
+    if True in desc_fn:
+        lam = T.cast(ast.Lambda, desc_fn[True])
+        arg = lam.args.args[0].arg if lam.args.args else ''
+        t = shape.render(shape.parts(lam.body), lambda op: 'DESC' if op.expr == arg else '?' + op.expr, lambda t_: None)
+        ctx.require(t == '/* {DESC} */\n', f'{qn}: c description comment is /* DESC */', mod, qn, 'description comment (c)', f'the description is rendered as {t!r}; documented: /* DESC */', lam)
+    ctx.note(f'{qn}: nasm description comment (join over splitlines) is not decided')
+
+    def role(op: shape.Op) -> T.Optional[str]:
+        if op.expr in pref_names:
+            return 'P'
+        if op.expr == k:
+            return 'NAME'
+        nd = op.node
+        if isinstance(nd, ast.Call) and isinstance(nd.func, ast.Name) and len(nd.args) == 1 and (_as_value(nd.args[0], confs) or ('', 0))[1] == 1:
+            return 'COMMENT'
+        return None
+
+    def ref(sem: T.Dict[str, T.Any]) -> T.Optional[T.Dict[str, T.Any]]:
+        if 'desc' not in sem:
+            raise Undecided(f'{qn}: the description is not tested')
+        head = ['{COMMENT}'] if sem['desc'] else []
+        t = sem['type']
+        if t == 'other':
+            return RAISE
+        if t == 'bool':
+            if 'truthy' not in sem:
+                raise Undecided(f'{qn}: boolean rows do not test the value')
+            return {'kind': 'fall', 'writes': head + ['{P}define {NAME}\n\n' if sem['truthy'] else '{P}undef {NAME}\n\n']}
+        return {'kind': 'fall', 'writes': head + ['{P}define {NAME} {VALUE}\n\n']}
+    tab = shape.table(fn, body=loop.body, handlers=False, name=qn + ':entry')
+    sp = Spec(qn, confs, ref, role=role)
+    # inside the loop body the key is the loop variable
+    n += _check_table(ctx, mod, sp, tab, 'header entry per value type')
+    # closing #endif: only for c with a guard macro
+    post = shape.table(fn, body=fn.body[i + 1:], handlers=False, name=qn + ':tail')
+    for w in post.worlds():
+        rows = T.cast(T.List[shape.XRow], post.fire(w))
+        if len(rows) != 1:
+            raise Undecided(f'{qn}: tail: {len(rows)} rows fire')
+        isc = [v for a, v in w.items() if a.kind == 'cmp' and a.args[0] == 'eq' and a.args[1] == fmt_p[0] and a.args[2] == "'c'"]
+        mac = [v for a, v in w.items() if a.kind == 'truth' and isinstance(_parse(a.args[0]), ast.Name) and a.args[0] != fmt_p[0]]
+        if len(isc) > 1 or len(mac) > 1 or len(w) != len(isc) + len(mac):
+            raise Undecided(f'{qn}: tail tests {list(w)}; expected the format and the guard macro')
+        got = _outcome(sp, {}, rows[0])['writes']
+        for c_ in (isc or [True, False]):
+            for m_ in (mac or [True, False]):
+                want = ['#endif\n'] if c_ and m_ else []
+                n += 1
+                ctx.require(got == want, f'{qn}: tail for c={c_}, guard macro={m_}: writes {want}', mod, qn, f'tail: c={c_} macro={m_}',
+                            f'after the entries the code writes {got} when format-is-c={c_} and guard-macro={m_}; documented: {want}',
+                            rows[0].path.events[-1].node if rows[0].path.events else fn)
+    return n
 
 
 # ---------------------------------------------------------------------------------------------
@@ -651,59 +1216,38 @@ def r4b(ctx: RuleCtx) -> None:
 
 INDENT, EOL = ' \t', '\r\n'
 
-
-def _variants(core: str) -> T.List[T.Tuple[str, str, str]]:
-    return [('', core, '\n'), (INDENT, core, EOL), ('', core, ''), ('  ', core, '\n')]
-
-
-def _r4c_define(ctx: RuleCtx, mod: Module, qn: str, cores: T.List[str]) -> None:
-    aspects: T.Dict[str, T.Set[str]] = {}
-    examples: T.Dict[str, str] = {}
-    undec: T.List[str] = []
-    n = nbad = 0
+# ---------------------------------------------------------------------------------------------
+# R4c  per-line transformers reproduce indentation and terminator
+# ---------------------------------------------------------------------------------------------
+def _r4c_define(ctx: RuleCtx, mod: Module, qn: str) -> None:
+    fn = mod.func(qn)
+    line = [a.arg for a in fn.args.args if a.annotation is not None and norm(a.annotation) == 'str']
+    if len(line) != 1:
+        raise Undecided(f'{qn}: cannot identify the line parameter')
+    ld = LineDep(mod, qn, line[0])
+    if not ld.returns:
+        raise Undecided(f'{qn}: no return statement')
+    claims: T.List[str] = []
+    shown: T.List[str] = []
     node: T.Optional[ast.AST] = None
-    for core in cores:
-        for kind, val in VALUES:
-            if kind in ('other', 'zero'):
-                continue
-            outs = []
-            for ind, c, eol in _variants(core):
-                r = _define(mod, qn, ind + c + eol, _conf(kind, val))
-                outs.append((ind, eol, r))
-            base = outs[0][2]
-            if base.kind != 'return' or not isinstance(base.value, str):
-                undec.append(f'{core!r} with FOO {kind}: {_show(base)}')
-                continue
-            stem = base.value.strip()
-            for ind, eol, r in outs:
-                n += 1
-                want = ind + stem + eol
-                if r.kind == 'return' and r.value == want:
-                    continue
-                nbad += 1
-                node = node or (r.path.events[-1].node if r.path and r.path.events else None)
-                got = r.value if r.kind == 'return' and isinstance(r.value, str) else None
-                what = []
-                if got is None or got.strip() != stem:
-                    what.append('text')
-                else:
-                    if got[:len(got) - len(got.lstrip())] != ind:
-                        what.append('indentation')
-                    if got[len(got.rstrip()):] != eol:
-                        what.append({'\r\n': 'CRLF terminator', '\n': 'LF terminator', '': 'absent terminator'}[eol])
-                for w in what:
-                    aspects.setdefault(w, set()).add(kind)
-                    examples.setdefault(w, f'{ind + core + eol!r} (FOO {kind}) -> {_show(r)}, expected {want!r}')
-    if undec and not aspects:
-        raise Undecided(f'{qn}: sample lines do not yield a text: {undec[:3]}')
-    if aspects:
-        order = [k for k, _ in VALUES]
-        desc = '; '.join(f'{a} ({",".join(sorted(ks, key=order.index))})' for a, ks in sorted(aspects.items()))
-        ctx.violation(mod, qn, f'returned line does not keep: {desc}',
-                      f'{qn} does not reproduce the leading blanks / the line terminator of its input line in {nbad} of {n} sample evaluations '
-                      f'[{desc}], e.g. ' + '; '.join(examples[a] for a in sorted(examples)), node or mod.func(qn))
-    else:
-        ctx.ok(f'{qn}: indentation and terminator of the input line are reproduced in all {n} sample evaluations (lines {cores}, every value kind, 4 indentation/terminator variants)')
+    for tag, aspect in (('T', 'line terminator'), ('I', 'indentation')):
+        if ld.observed_by_control(tag):
+            ctx.note(f'{qn}: a branch condition depends on the {aspect} of `{line[0]}` in a way the analysis cannot discount: dependence of the result on the {aspect} is not decided')
+            continue
+        ind = ld.independent(tag)
+        if not ind:
+            ctx.ok(f'{qn}: every one of the {len(ld.returns)} returned texts depends on the {aspect} of `{line[0]}` (data flow from the parameter)')
+            continue
+        claims.append(f'{aspect} ({len(ind)} of {len(ld.returns)} returns)')
+        node = node or ind[0]
+        for st in ind[:2]:
+            tail = [p for p in shape.flatten(shape.parts(st.value))] if st.value is not None else []
+            lit = f', it ends with the constant {tail[-1].text!r}' if tag == 'T' and tail and isinstance(tail[-1], shape.Lit) else ''
+            shown.append(f'`{short(st, 70)}` cannot depend on the {aspect}{lit}')
+    if claims:
+        ctx.violation(mod, qn, 'returned text independent of the input line: ' + '; '.join(claims),
+                      f'{qn}: no data or control flow leads from the {" / ".join(c.split(" (")[0] for c in claims)} of `{line[0]}` to the returned text '
+                      f'[{"; ".join(claims)}]: two template lines that differ only there give the same output, so it is not copied; e.g. ' + '; '.join(shown), node)
 
 
 def r4c(ctx: RuleCtx) -> None:
@@ -718,16 +1262,16 @@ def r4c(ctx: RuleCtx) -> None:
     ctx.require(isinstance(text, ast.Name) and text.id in params and not stores and direct,
                 'do_replacement_meson: returns the scan of its own line parameter, untouched before and after', mod, 'do_replacement_meson', call,
                 f'the text scanned is `{norm(text)}` and the result is post-processed: the line is no longer copied outside placeholders', call)
-    pat = _variable_regex(mod, 'meson')
+    pat = _variable_regex(ctx, mod, 'meson')
     tree, alts = _alternatives(pat)
     for i, items in enumerate(alts):
         lead, body, trail = rxl.split_lookaround(items)
         bad = [c for c in ' \t\r\n' if rxl.can_contain(body, c)]
         ctx.require(not bad, f'meson regex alternative {i + 1} cannot consume blank / CR / LF', mod, 'get_variable_regex', f'meson placeholder regex: alternative {i + 1}: whitespace',
                     f'alternative {i + 1} can match {bad!r}: a placeholder match could swallow indentation or the line terminator', mod.func('get_variable_regex'))
-    # define transformers: indentation and terminator of the input line must come out again
-    _r4c_define(ctx, mod, 'do_define_meson', ['#mesondefine FOO'])
-    _r4c_define(ctx, mod, 'do_define_cmake', ['#cmakedefine FOO', '#cmakedefine01 FOO', '#cmakedefine FOO xxx yyy'])
+    # define transformers: the result must depend on the indentation and on the terminator of the input line
+    _r4c_define(ctx, mod, 'do_define_meson')
+    _r4c_define(ctx, mod, 'do_define_cmake')
     ctx.note('do_replacement_cmake (hand-written index scanner) is not decided')
 
 
@@ -784,14 +1328,6 @@ def r5(ctx: RuleCtx) -> None:
         else:
             ctx.violation(mod, '_dump_c_header', f'{len(ws)} emissions for a key: {where}', f'on the path [{where}] the key is emitted {len(ws)} times (must be exactly once)', last)
     ctx.floor('_dump_c_header: non-raising paths through the loop body', n, 6)
-    # sample with several keys in non-sorted insertion order: every key once, ascending
-    folder = Folder()
-    env = _header_env(mod, fn, folder, SampleConf({'b': (1, None), 'c': (True, 'd'), 'a': ('x', None)}), 'c', None)
-    replay(fn.body, env, folder, unroll=3)
-    text = ''.join(a[0] for nm, a in folder.effects if nm == 'ofile.write')
-    order = re.findall(r'(?m)^#(?:define|undef) (\w+)', text)
-    ctx.require(order == ['a', 'b', 'c'], 'sample {b, c, a}: defined once each in the order a, b, c', mod, '_dump_c_header', 'sample header with three keys',
-                f'for data inserted as b, c, a the header defines {order}', loop)
     # the caller: one emitter per path; json sorted
     dfn = mod.func('dump_conf_header')
     np_ = 0
@@ -838,3 +1374,4 @@ RULES = [
     Rule('C14.R4c', 'per-line transformers keep indentation and terminator', r4c),
     Rule('C14.R5', 'generated header: sorted keys, one emission per key', r5),
 ]
+
